@@ -39,7 +39,35 @@ pub const PROBES: &[Probe] = &[
     // Option<String>, enumerations and a numeric option that is parsed from a string
     Probe { name: "pager", ty: PType::Str, builtin: &[], extra_args: &[] },
     Probe { name: "inspect-raw-lines", ty: PType::Enum(&["true", "false"]), builtin: &[], extra_args: &[] },
+    // options whose builtin-feature values come from git's colour configuration when it is there
+    // (diff-so-fancy: color.diff.meta, diff-highlight / raw: color.diff.commit ...): the values in the
+    // table are read from the binary with and without those keys
+    Probe { name: "file-style", ty: PType::Enum(STYLE_WORDS), builtin: &[("diff-so-fancy", ""), ("raw", ""), ("diff-highlight", "")], extra_args: &[] },
+    Probe { name: "commit-style", ty: PType::Enum(STYLE_WORDS), builtin: &[("diff-highlight", ""), ("raw", ""), ("diff-so-fancy", "")], extra_args: &[] },
 ];
+
+/// style values that `--show-config` prints back unchanged
+pub const STYLE_WORDS: &[&str] = &["red", "blue", "green", "yellow", "cyan", "white", "bold red", "bold blue"];
+
+/// Two different values of the probe's type that `--show-config` prints back unchanged (used when
+/// reading from the binary what the builtin features set: a lower-priority custom feature carries
+/// the marker; a builtin that does not set the option lets both markers through).
+pub fn calibration_markers(probe: &Probe) -> (String, String) {
+    let two = |a: &str, b: &str| (a.to_string(), b.to_string());
+    match probe.ty {
+        PType::Str => two("CALIBRATION", "CALIBRATION2"),
+        PType::Float => two("0.37", "0.41"),
+        PType::Int => two("37", "41"),
+        PType::Bool => two("true", "false"),
+        PType::Enum(words) => two(words[0], words[1 % words.len()]),
+    }
+}
+
+pub fn reads_git_colors(probe: &str) -> bool {
+    probe == "file-style" || probe == "commit-style"
+}
+
+pub const GIT_COLORS_TEXT: &str = "[color \"diff\"]\n\tmeta = magenta bold\n\tcommit = cyan ul\n\tfrag = blue\n\told = red bold\n\tnew = green bold\n[color \"diff-highlight\"]\n\toldNormal = red\n\toldHighlight = red 52\n\tnewNormal = green\n\tnewHighlight = green 22\n";
 
 /// The wide-but-shallow part: every other option that can be set in gitconfig (the options handled by
 /// the `set_options!` list), observed at the `Opt` level by the in-process engine only (most of them
@@ -63,13 +91,11 @@ pub const WIDE: &[WideOpt] = &[
     WideOpt { probe: Probe { name: "blame-timestamp-output-format", ty: PType::Str, builtin: &[], extra_args: &[] }, field: "blame_timestamp_output_format", optional: true },
     WideOpt { probe: Probe { name: "commit-decoration-style", ty: PType::Enum(&["red box", "blue ul", "green ol", "yellow box ul", "magenta ul ol", "cyan box", "white ul", "none"]), builtin: &[], extra_args: &[] }, field: "commit_decoration_style", optional: false },
     WideOpt { probe: Probe { name: "commit-regex", ty: PType::Str, builtin: &[], extra_args: &[] }, field: "commit_regex", optional: false },
-    WideOpt { probe: Probe { name: "commit-style", ty: PType::Enum(&["red", "blue bold", "green", "yellow italic", "magenta", "cyan ul", "white", "black bold"]), builtin: &[], extra_args: &[] }, field: "commit_style", optional: false },
     WideOpt { probe: Probe { name: "default-language", ty: PType::Enum(&["rs", "py", "js", "go", "rb", "c"]), builtin: &[], extra_args: &[] }, field: "default_language", optional: false },
     WideOpt { probe: Probe { name: "diff-args", ty: PType::Enum(&["-U5", "-U7", "-U9", "--minimal", "-U11", "-U13"]), builtin: &[], extra_args: &[] }, field: "diff_args", optional: false },
     WideOpt { probe: Probe { name: "file-copied-label", ty: PType::Str, builtin: &[], extra_args: &[] }, field: "file_copied_label", optional: false },
     WideOpt { probe: Probe { name: "file-decoration-style", ty: PType::Enum(&["red box", "blue ul", "green ol", "yellow box ul", "magenta ul ol", "cyan box", "white ul", "none"]), builtin: &[], extra_args: &[] }, field: "file_decoration_style", optional: false },
     WideOpt { probe: Probe { name: "file-removed-label", ty: PType::Str, builtin: &[], extra_args: &[] }, field: "file_removed_label", optional: false },
-    WideOpt { probe: Probe { name: "file-style", ty: PType::Enum(&["red", "blue bold", "green", "yellow italic", "magenta", "cyan ul", "white", "black bold"]), builtin: &[], extra_args: &[] }, field: "file_style", optional: false },
     WideOpt { probe: Probe { name: "file-transformation", ty: PType::Enum(&["s/a/b/", "s/c/d/", "s/e/f/", "s/g/h/", "s/i/j/", "s/k/l/"]), builtin: &[], extra_args: &[] }, field: "file_regex_replacement", optional: true },
     WideOpt { probe: Probe { name: "grep-context-line-style", ty: PType::Enum(&["red", "blue bold", "green", "yellow italic", "magenta", "cyan ul", "white", "black bold"]), builtin: &[], extra_args: &[] }, field: "grep_context_line_style", optional: true },
     WideOpt { probe: Probe { name: "grep-file-style", ty: PType::Enum(&["red", "blue bold", "green", "yellow italic", "magenta", "cyan ul", "white", "black bold"]), builtin: &[], extra_args: &[] }, field: "grep_file_style", optional: false },
@@ -184,6 +210,10 @@ pub struct Placement {
     /// builtin feature flags set to true through GIT_CONFIG_PARAMETERS (`git -c delta.navigate=true`)
     #[serde(default)]
     pub envparam_flags: Vec<String>,
+    /// the gitconfig also has git's own colour settings (`[color "diff"] meta = ...`), from which
+    /// some builtin features take the values they set
+    #[serde(default)]
+    pub git_colors: bool,
     /// [delta "<name>"] sections
     pub custom: BTreeMap<String, Section>,
     pub cli_features: Option<Vec<String>>,
@@ -353,6 +383,11 @@ pub fn expected(p: &Placement, probe: &Probe, default: &str, pol: Policy, table:
                 }
             }
         }
+        if gc && p.git_colors {
+            if let Some(v) = table.get(&(probe.name.to_string(), format!("{}+git-colors", f))) {
+                return v.clone();
+            }
+        }
         if let Some(v) = table.get(&(probe.name.to_string(), f.clone())) {
             return v.clone();
         }
@@ -448,6 +483,9 @@ pub fn gitconfig_text(p: &Placement) -> String {
     let mut t = String::new();
     let main_empty = p.main.value.is_none() && p.main.features.is_none() && p.main.flags.is_empty();
     // custom sections before or after the main one must not matter: alternate by a hash of the probe
+    if p.git_colors {
+        t.push_str(GIT_COLORS_TEXT);
+    }
     let style = spelling_of(p);
     let mut custom = String::new();
     for (n, s) in &p.custom {
@@ -910,6 +948,9 @@ impl<'a> Builder<'a> {
             _ => return false,
         }
         self.p.sources.push(kind.to_string());
+        if reads_git_colors(self.probe.name) && self.p.sources.len() == 1 {
+            self.p.git_colors = rng.chance(1, 2);
+        }
         true
     }
 }
